@@ -241,7 +241,9 @@ fn residual_styled_empty_cells(
         let Some(pos) = e.key.find(").") else { return false };
         let cell = &e.key[..pos + 1];
         let aspect = &e.key[pos + 2..];
-        if !cell.contains(".cell(") || !(aspect.starts_with("style") || aspect == "formatted") {
+        if !cell.contains(".cell(") || !(aspect.starts_with("style.") || aspect == "formatted") {
+            // (the bare aspect `style` is an explicit *default* style that overrides an inherited
+            // row/column style: the cell does not "keep a style", it is a different failure)
             return false;
         }
         // only cells the undone operation itself wrote into: "sheet[i].cell(r,c)"
@@ -280,6 +282,51 @@ pub fn case_strategy(max_len: usize, profile: Profile) -> BoxedStrategy<Case> {
         .boxed()
 }
 
+/// Fills under band styles: values are typed first, then whole rows / columns get a style, then
+/// only fill operations follow. The walk back undoes the fills before the band styles and the
+/// band styles before the typed values, so the listed residual-style finding (a *typed* cell
+/// whose band style is undone later) cannot arise, while a fill target that did not exist before
+/// the fill must go back to inheriting its row / column style.
+pub fn fill_bands_strategy() -> BoxedStrategy<Case> {
+    use crate::engine::inputs::{cell_input, InputClass, HOT_COLS, HOT_ROWS};
+    use crate::engine::ops::{style_edit, A, LAST_COLUMN, LAST_ROW};
+    let input = (1..=HOT_ROWS, 1..=HOT_COLS, cell_input(InputClass::Plain))
+        .prop_map(|(row, col, text)| Op::Input { s: 0, row, col, text });
+    let band = (any::<bool>(), 1..=HOT_ROWS.min(HOT_COLS), 1..3i32, style_edit()).prop_map(|(rows, at, n, (path, value))| {
+        let a = if rows {
+            A { s: 0, row: at, col: 1, w: LAST_COLUMN, h: n }
+        } else {
+            A { s: 0, row: 1, col: at, w: n, h: LAST_ROW }
+        };
+        Op::UpdateStyle { a, path, value }
+    });
+    let small = || {
+        (1..=HOT_ROWS, 1..=HOT_COLS, 1..3i32, 1..3i32).prop_map(|(row, col, w, h)| A { s: 0, row, col, w, h })
+    };
+    let fill = prop_oneof![
+        (small(), -3..6i32).prop_map(|(a, d)| {
+            let to_row = if d >= 0 { a.row + a.h - 1 + d } else { a.row + d };
+            Op::AutofillRows { a, to_row }
+        }),
+        (small(), -3..6i32).prop_map(|(a, d)| {
+            let to_col = if d >= 0 { a.col + a.w - 1 + d } else { a.col + d };
+            Op::AutofillCols { a, to_col }
+        }),
+    ];
+    (
+        prop::collection::vec(input, 1..6),
+        prop::collection::vec(band, 1..4),
+        prop::collection::vec(fill, 1..5),
+    )
+        .prop_map(|(a, b, c)| {
+            let mut ops = a;
+            ops.extend(b);
+            ops.extend(c);
+            Case { locale: "en".into(), language: "en".into(), profile: Profile::EditBands, ops }
+        })
+        .boxed()
+}
+
 pub fn run(ctx: &Ctx) {
     ctx.set_rule(
         "Histories of 1..12 (quick) / 1..40 (thorough) generated UserModel operations from small \
@@ -301,6 +348,7 @@ pub fn run(ctx: &Ctx) {
     if restricted {
         ctx.campaign("histories-edit", cases / 2, || case_strategy(len, Profile::Edit), check, enc);
         ctx.campaign("histories-structural", cases / 2, || case_strategy(len, Profile::Structural), check, enc);
+        ctx.campaign("fills-under-band-styles", cases / 10, fill_bands_strategy, check, enc);
 
     } else {
         ctx.campaign("histories", cases, || case_strategy(len, Profile::Full), check, enc);
